@@ -255,3 +255,130 @@ Proof.
   - rewrite <- Hnk. apply Hsol. exact Hk.
   - eapply row_length; eauto.
 Qed.
+
+(* ====================================================================== D. min / max / argmax *)
+Lemma minT_le (a b : R) : @minT ROps a b <= a /\ @minT ROps a b <= b.
+Proof. unfold minT. cbn [ltb ROps]. rcase; lra. Qed.
+Lemma maxT_ge (a b : R) : a <= @maxT ROps a b /\ b <= @maxT ROps a b.
+Proof. unfold maxT. cbn [ltb ROps]. rcase; lra. Qed.
+Lemma maxT_cases (a b : R) : @maxT ROps a b = a \/ @maxT ROps a b = b.
+Proof. unfold maxT. destruct (ltb ROps a b); auto. Qed.
+
+Lemma fold_min_le : forall (t : list R) (x y : R), In y (x :: t) -> fold_left (@minT ROps) t x <= y.
+Proof.
+  induction t as [|a t IH]; intros x y Hin; cbn [fold_left].
+  - destruct Hin as [->|[]]. lra.
+  - destruct (minT_le x a) as [H1 H2].
+    pose proof (IH (@minT ROps x a) (@minT ROps x a) (or_introl eq_refl)) as H3.
+    destruct Hin as [->|[->|Hin]]; [lra|lra|]. apply IH. right. exact Hin.
+Qed.
+Lemma fold_max_ge : forall (t : list R) (x y : R), In y (x :: t) -> y <= fold_left (@maxT ROps) t x.
+Proof.
+  induction t as [|a t IH]; intros x y Hin; cbn [fold_left].
+  - destruct Hin as [->|[]]. lra.
+  - destruct (maxT_ge x a) as [H1 H2].
+    pose proof (IH (@maxT ROps x a) (@maxT ROps x a) (or_introl eq_refl)) as H3.
+    destruct Hin as [->|[->|Hin]]; [lra|lra|]. apply IH. right. exact Hin.
+Qed.
+Lemma fold_max_In : forall (t : list R) (x : R), In (fold_left (@maxT ROps) t x) (x :: t).
+Proof.
+  induction t as [|a t IH]; intros x; cbn [fold_left]; [left; reflexivity|].
+  destruct (IH (@maxT ROps x a)) as [H|H]; [|right; right; exact H].
+  rewrite <- H. destruct (maxT_cases x a) as [E|E]; rewrite E; [left|right; left]; reflexivity.
+Qed.
+
+Lemma In_sel {B} (d : B) : forall P (v : list B) y, In y (sel P v) ->
+  exists i, (i < length P)%nat /\ (i < length v)%nat /\ nth i P false = true /\ nth i v d = y.
+Proof.
+  induction P as [|p P IH]; intros [|x v] y H; try (unfold sel in H; simpl in H; contradiction).
+  rewrite sel_cons in H. destruct p.
+  - destruct H as [<-|H].
+    + exists 0%nat. simpl. repeat split; lia.
+    + destruct (IH _ _ H) as [i [H1 [H2 [H3 H4]]]]. exists (S i). simpl. repeat split; auto; lia.
+  - destruct (IH _ _ H) as [i [H1 [H2 [H3 H4]]]]. exists (S i). simpl. repeat split; auto; lia.
+Qed.
+
+Lemma need_fix_false P (s : list R) (tau : R) n : length P = n -> length s = n -> @need_fix ROps P s tau = false ->
+  forall i, (i < n)%nat -> nth i P false = true -> tau < nth i s 0.
+Proof.
+  intros HP Hs H i Hi Ht. unfold need_fix, min_list in H. norm.
+  pose proof (sel_In P s i 0 ltac:(lia) ltac:(lia) Ht) as Hin.
+  destruct (sel P s) as [|x t]; [contradiction|].
+  cbn [leb ROps] in H. apply Rleb_false in H. pose proof (fold_min_le t x _ Hin). norm. lra.
+Qed.
+
+Lemma nth_map_negb P i : (i < length P)%nat -> nth i (map negb P) false = negb (nth i P false).
+Proof. intros H. change false with (negb true) at 1. rewrite map_nth. f_equal. apply nth_indep. exact H. Qed.
+
+Lemma keep_going_false P (w : list R) (tau : R) n : length P = n -> length w = n -> @keep_going ROps P w tau = false ->
+  forall i, (i < n)%nat -> nth i P false = false -> nth i w 0 <= tau.
+Proof.
+  intros HP Hw H i Hi Hf. unfold keep_going, max_list in H. norm.
+  assert (Hin : In (nth i w 0) (sel (map negb P) w)).
+  { apply sel_In; [rewrite map_length; lia|lia|]. rewrite nth_map_negb by lia. rewrite Hf. reflexivity. }
+  destruct (sel (map negb P) w) as [|x t]; [contradiction|].
+  cbn [ltb ROps] in H. apply Rltb_false in H. pose proof (fold_max_ge t x _ Hin). norm. lra.
+Qed.
+Lemma keep_going_true P (w : list R) (tau : R) n : length P = n -> length w = n -> @keep_going ROps P w tau = true ->
+  exists i, (i < n)%nat /\ nth i P false = false /\ tau < nth i w 0.
+Proof.
+  intros HP Hw H. unfold keep_going, max_list in H. norm.
+  destruct (sel (map negb P) w) as [|x t] eqn:E; [discriminate|].
+  cbn [ltb ROps] in H. apply Rltb_true in H.
+  pose proof (fold_max_In t x) as Hin. rewrite <- E in Hin.
+  destruct (In_sel 0 _ _ _ Hin) as [i [H1 [H2 [H3 H4]]]]. rewrite map_length in H1.
+  exists i. split; [lia|]. rewrite nth_map_negb in H3 by lia. apply negb_true_iff in H3.
+  split; [exact H3|]. rewrite H4. exact H.
+Qed.
+
+Lemma argmax_from_spec : forall (l : list R) i best (bv : R),
+  exists mv, ((@argmax_from ROps l i best bv = best /\ mv = bv) \/
+              ((i <= @argmax_from ROps l i best bv < i + length l)%nat /\ mv = nth (@argmax_from ROps l i best bv - i) l 0))
+             /\ bv <= mv /\ forall k, (k < length l)%nat -> nth k l 0 <= mv.
+Proof.
+  induction l as [|x t IH]; intros i best bv.
+  - exists bv. cbn. repeat split; [left; auto|lra|intros; lia].
+  - cbn [argmax_from ltb ROps]. destruct (Rltb bv x) eqn:E; rbool.
+    + destruct (IH (S i) i x) as [mv [Hr [Hb Hk]]]. exists mv. split; [right|split; [lra|]].
+      * destruct Hr as [[Hr ->]|[Hr ->]].
+        -- rewrite Hr. split; [simpl; lia|]. rewrite Nat.sub_diag. reflexivity.
+        -- split; [simpl; lia|]. set (r := @argmax_from ROps t (S i) i x) in *.
+           replace (r - i)%nat with (S (r - S i)) by lia. reflexivity.
+      * intros [|k] Hlt; [exact Hb|]. apply Hk. simpl in Hlt. lia.
+    + destruct (IH (S i) best bv) as [mv [Hr [Hb Hk]]]. exists mv. split; [|split; [exact Hb|]].
+      * destruct Hr as [[Hr ->]|[Hr ->]]; [left; auto|right].
+        split; [simpl; lia|]. set (r := @argmax_from ROps t (S i) best bv) in *.
+        replace (r - i)%nat with (S (r - S i)) by lia. reflexivity.
+      * intros [|k] Hlt; [simpl; lra|]. apply Hk. simpl in Hlt. lia.
+Qed.
+Lemma argmax_spec (l : list R) : l <> [] ->
+  (@argmax ROps l < length l)%nat /\ forall k, (k < length l)%nat -> nth k l 0 <= nth (@argmax ROps l) l 0.
+Proof.
+  destruct l as [|x t]; [congruence|]. intros _. unfold argmax.
+  destruct (argmax_from_spec t 1 0 x) as [mv [Hr [Hb Hk]]].
+  destruct Hr as [[Hr ->]|[Hr ->]].
+  - rewrite Hr. split; [simpl; lia|]. intros [|k] Hlt; [simpl; lra|]. apply Hk. simpl in Hlt. lia.
+  - set (r := @argmax_from ROps t 1 0 x) in *. split; [simpl; lia|].
+    replace (nth r (x :: t) 0) with (nth (r - 1) t 0) by (destruct r; [lia|simpl; rewrite Nat.sub_0_r; reflexivity]).
+    intros [|k] Hlt; [exact Hb|]. apply Hk. simpl in Hlt. lia.
+Qed.
+
+Lemma idmax_ok P (w : list R) (tau : R) n : length P = n -> length w = n -> 0 <= tau -> @keep_going ROps P w tau = true ->
+  let idmax := @argmax ROps (map (fun wp : R * bool => mul ROps (fst wp) (if snd wp then @zero ROps else @one ROps)) (combine w P)) in
+  (idmax < n)%nat /\ nth idmax P false = false.
+Proof.
+  intros HP Hw Ht Hk. destruct (keep_going_true _ _ _ _ HP Hw Hk) as [i [Hi [HPi Hwi]]].
+  set (f := (fun wp : R * bool => mul ROps (fst wp) (if snd wp then @zero ROps else @one ROps)) : R * bool -> R).
+  set (v := map f (combine w P) : list R). intros idmax. change (@argmax ROps v) in (value of idmax).
+  assert (Hlv : length v = n) by (unfold v; rewrite map_length, combine_length, Hw, HP; apply Nat.min_id).
+  assert (Hnv : forall k, (k < n)%nat -> nth k v 0 = f (nth k w 0, nth k P false)).
+  { intros k Hk'. unfold v. rewrite (nth_indep _ 0 (f (0, false))) by exact (eq_ind_r (fun m => (k < m)%nat) Hk' Hlv).
+    rewrite map_nth, combine_nth by lia. reflexivity. }
+  assert (Hne : v <> []) by (intro E; rewrite E in Hlv; simpl in Hlv; lia).
+  destruct (argmax_spec v Hne) as [H1 H2]. fold idmax in H1, H2.
+  split; [rewrite Hlv in H1; exact H1|].
+  specialize (H2 i ltac:(lia)). rewrite (Hnv i Hi), (Hnv idmax ltac:(lia)) in H2.
+  unfold f in H2. cbn [fst snd mul ROps] in H2. rewrite HPi in H2.
+  destruct (nth idmax P false); [|reflexivity].
+  unfold zero, one in H2. cbn [ofZ ROps] in H2. lra.
+Qed.
